@@ -224,7 +224,9 @@ class Evidence:
 # ------------------------------------------------------------- running the impl
 def impl_env(extra: dict | None = None) -> dict:
     e = dict(os.environ)
-    e[GUARD] = "1"
+    # the library is judged as users run it: the hook guard is OFF unless a driver asks for it
+    # (only the step-level conformance layer of C02/C17 does, through env={GUARD: "1"})
+    e.pop(GUARD, None)
     e["PYTHONPATH"] = f"{REPO}:{VERIF / 'harness'}"
     e.setdefault("PYTHONHASHSEED", "0")
     e["PYTHONDONTWRITEBYTECODE"] = "1"
